@@ -88,19 +88,28 @@ def sciOf (q : Rat) (k : Int) : Sci := ⟨I.pt q, k⟩
 /-- enclosure of the true value of f at the finite non-special argument (neg, c, e); returns the sign
     of the true result and its magnitude -/
 def trueValue (f : Fn) (n : Bool) (c : Nat) (e : Int) : Option (Bool × Sci) :=
-  let x : Rat := if n then -(mag c e) else mag c e   -- only used when |e| is moderate
+  let x : Rat := if e < -200 || e > 200 then 0 else (if n then -(mag c e) else mag c e)   -- only used when |e| is moderate
+  -- |x| < 1e-40: exp-like results are 1 up to far less than an ulp
+  let nearOne : Option (Bool × Sci) := some (false, ⟨⟨1 - pow10 (-39), 1 + pow10 (-39)⟩, 0⟩)
   match f with
   | .exp =>
-    if e + (ndigits c : Int) > 7 then none else some (false, Encl.exp x)
+    if e + (ndigits c : Int) > 7 then none else if e + (ndigits c : Int) < -40 then nearOne else some (false, Encl.exp x)
   | .exp2 =>
-    if e + (ndigits c : Int) > 7 then none else some (false, expI ((I.pt x).mul ln2))
+    if e + (ndigits c : Int) > 7 then none else if e + (ndigits c : Int) < -40 then nearOne else some (false, expI ((I.pt x).mul ln2))
   | .exp10 =>
-    if e + (ndigits c : Int) > 7 then none else some (false, expI ((I.pt x).mul ln10))
+    if e + (ndigits c : Int) > 7 then none else if e + (ndigits c : Int) < -40 then nearOne else some (false, expI ((I.pt x).mul ln10))
   | .expm1 =>
     if e + (ndigits c : Int) > 7 then none
     else if e + (ndigits c : Int) < -40 then
       -- |x| < 1e-40: expm1 x = x + x²/2 + …, enclose relative to x
       some (n, ⟨⟨(c : Rat) * (1 - pow10 (-39)), (c : Rat) * (1 + pow10 (-39))⟩, e⟩)
+    else if n && e + (ndigits c : Int) > 2 then
+      -- x ≤ −100: e^x − 1 = −(1 − e^x), e^x < 1e-43
+      some (true, ⟨⟨1 - pow10 (-40), 1⟩, 0⟩)
+    else if !n && e + (ndigits c : Int) > 2 then
+      -- x ≥ 100: e^x − 1 = e^x·(1 − e^-x), e^-x < 1e-43
+      let t := Encl.exp x
+      some (false, ⟨⟨t.m.lo * (1 - pow10 (-40)), t.m.hi⟩, t.k⟩)
     else
       let v := Encl.expm1 x
       if v.lo > 0 then some (false, ⟨v, 0⟩) else if v.hi < 0 then some (true, ⟨v.neg, 0⟩) else none
@@ -295,7 +304,7 @@ def judgePow (m : Mode) (x y r : Val) : Verdict :=
         if p.lo > plim then (if r.same (.inf neg) then .ok else .bad "overflow must give Inf")
         else if p.hi < -plim then (if r.isZero && r.neg == neg then .ok else .bad "underflow must give zero")
         else
-          let t := expI p
+          let t : Sci := if p.hi < pow10 (-40) && p.lo > -(pow10 (-40)) then ⟨⟨1 - pow10 (-39), 1 + pow10 (-39)⟩, 0⟩ else expI p
           let lnx := if l.lo < 0 then -l.lo else l.hi
           let extra := ymag * (4 * pow10 (-37) * lnx + pow10 (-55))
           if !r.isNaN && r.neg != neg then .bad "wrong sign"
